@@ -69,6 +69,19 @@ PLAN = {
         "assumptions": [A_N],
         "parts": [n_part("N-reused-call-sites", "C07", 1600, 160000, selftest=64, extra_args=["--family", "count"])],
     },
+    "C09": {
+        "level": "fault_enumeration",
+        "rule": "31 function types (arity, one parameter type, return type, reference mutability, raw-pointer mutability, unsafety, ABI C/system/Rust, one lifetime-only twin); all 961 ordered (target type, replacement type) pairs, 24 per scenario (41 scenarios enumerate them; further scenarios repeat them through other macro forms: func! two-argument / fn(..) / func_info:, closure!, fake!), plus null target/fake, checked-unchecked mixes, async wrong/right output type; refusal = panic with the right message before any OS event and unchanged entry; distinct = pair blocks",
+        "assumptions": [A_N, "type_name renders structurally different fn-pointer types differently (a rustc property)"],
+        "exhaustive": True,
+        "parts": [n_part("N-signature-pairs", "C09", 164, 16400, selftest=41, extra_args=["--family", "sigs"])],
+    },
+    "C14": {
+        "level": "fault_enumeration",
+        "rule": "9 async functions (free + methods; by-value/by-reference; (), u32 x2 siblings, bool, String x2 siblings, [u64;32]; two methods), histories of fake (checked/unchecked, two fake sites each with a sequence counter) / await (holder thread and 1-3 other threads) / re-fake / scope exit by drop or injected panic / new lifetime; single-poll executor with a no-op waker; distinct = (op shapes) tuples",
+        "assumptions": [A_N, "the harness awaits by calling <F as Future>::poll through an opaque function pointer (what .await compiles to when nothing is inlined, as in the crate's own debug-profile tests)"],
+        "parts": [n_part("N-async-histories", "C14", 1600, 160000, selftest=64, extra_args=["--family", "async"])],
+    },
     "C10": {
         "level": "fault_enumeration",
         "rule": "gate: every signature of a 14-member family (5 genuine bool functions of different shape/ABI/unsafety, 4 whose type text merely ends in `-> bool`, 5 other returns) x both values, judged accept iff the return type is bool, refusal before any OS event; registers: synthetic bool target near/far from the image at 6 page offsets, 8 seeded register files each through the assembly probe; simulation: forced boolean on A64/ARM under the reference interpreters; distinct = (mode, signature, value, placement, offset) tuples",
